@@ -196,6 +196,8 @@ def run_pel_property(run, model, proof, pid, rule):
     run_corpus(run, model, pid)
     if pid in ("C01", "C04"):
         big_sections(run, model, pid)
+    if pid in ("C01", "C02", "C03"):
+        hand_framed(run, model, pid)
     n = 20000 if thorough else 1000
     for i in range(n):
         plugins = rng.random() < 0.8
@@ -247,6 +249,76 @@ def big_sections(run, model, pid):
         if mo[0] == "ok" and pelgen.first_diff(mo[2], impl["doc"]) and pid == "C01":
             run.disagreements_checked += 1
             run.violation("model:big-section", "model and decoder disagree on a PEL with a large section", dict(rp, kind="M", correspondence="Model.Pel.decode vs peltool.parsePEL"), no_input=True)
+
+
+def hand_framed(run, model, pid):
+    """shapes the specification's generator does not draw (it keeps callout substructures in the canonical order and its text
+    fields left-justified): a callout's FRU / PCE / MRU substructures in every order, and header text fields with
+    NULs in front / inside / everywhere - compared with the model, and with what must hold whatever the display is: the PEL
+    decodes, and the section after the one in question is decoded intact"""
+    import itertools
+    import struct
+    from pel.hexdump import parse
+    from props import c04
+    rng = run.rng
+    tail = (b"UD", 1, 7, 0x1234, bytes(range(1, 12)))
+    cases = []
+    expect_text = {}          # case index -> (section, {key: the field's text with the NUL padding on both sides removed})
+    if pid in ("C01", "C03"):
+        fru = lambda: b"ID" + bytes([28, 0x0D]) + b"PN123456" + b"CCIN" + b"SN1234567890"          # pn + ccin + sn supplied
+        pce = lambda nm=b"NAME": b"PE" + bytes([24 + len(nm), 0]) + b"9105-22A" + b"SN7654321098" + nm
+        mru = lambda n=2: b"MR" + bytes([8 + 8 * n, n]) + bytes(4) + b"".join(struct.pack(">II", 0x48, 0x1000 + i) for i in range(n))
+        kinds = {"F": fru, "P": pce, "M": mru}
+        orders = ["".join(p) for r in (1, 2, 3) for p in itertools.permutations("FPM", r)]      # at most one of each kind, any order
+        for order in orders:
+            subs = b"".join(kinds[k]() for k in order)
+            loc = rng.choice([b"", b"U78D.001", b"ID12"])
+            loc = loc + bytes(-len(loc) % 4)
+            co = bytes([4 + len(loc) + len(subs), 0, 0x48, len(loc)]) + loc + subs
+            callouts = bytes([0xC0, 0]) + struct.pack(">H", (4 + len(co)) // 4) + co
+            words = b"".join(struct.pack(">I", w) for w in (0x020000F0, 1, 2, 3, 4, 5, 6, 7))
+            body = bytes([2, 1, 0, 9, 0, 0]) + struct.pack(">H", 72 + len(callouts)) + words + b"BD8D1001".ljust(32, b" ") + callouts
+            cases.append(("substructures:" + order, c04.mini_pel(b"O", [(b"PS", 1, 0, 0x2000, body), tail]), 1))
+    if pid == "C02":
+        for f in (b"\0\0MTM123", b"\0" * 8, b"AB\0CD\0\0\0", b"\0\0\0\0\0\0\0Z", b"12345678"):
+            for sn in (b"\0SN123456789", b"SN12\0\0\0\0\0\0\0\0", b"\0" * 11 + b"9"):
+                cases.append(("mtms-nuls", c04.mini_pel(b"O", [(b"MT", 1, 0, 0x2000, f + sn), tail]), 1))
+                expect_text[len(cases) - 1] = ("Failing MTMS", {"Machine Type Model": f.decode().strip("\0"), "Serial Number": sn.decode().strip("\0")})
+                eh = f + sn + b"\0FW1".ljust(16, b"\0") + b"\0\0SUB".ljust(16, b"\0") + bytes(4) + bytes.fromhex("2024010112000000") + bytes([0, 0, 0, 4]) + b"\0S\0\0"
+                cases.append(("eh-nuls", c04.mini_pel(b"O", [(b"EH", 1, 0, 0x2000, eh), tail]), 1))
+                expect_text[len(cases) - 1] = ("Extended User Header", {"Reporting Machine Type": f.decode().strip("\0"), "Reporting Serial Number": sn.decode().strip("\0"),
+                                                                         "FW Released Ver": "FW1", "FW SubSys Version": "SUB", "Symptom Id": "S"})
+    for ci, (tag, data, nbefore) in enumerate(cases):
+        run.evaluations += 1
+        run.count("hand-framed:" + tag.split(":")[0])
+        impl = pelgen.impl_decode(data, True)
+        rp = dict(kind="S", gen="hand-framed", what_case=tag, input_hex=data.hex())
+        if impl["kind"] != "ok":
+            run.violation("reject:hand-framed", "a well-formed PEL (%s) is rejected (%s: %s)" % (tag, impl.get("exc"), impl.get("msg")), dict(rp, actual=impl.get("exc")))
+            continue
+        keys = list(impl["doc"].keys())
+        try:
+            ok = len(keys) == 2 + nbefore + 1 and keys[-1].startswith("User Data") and bytes(parse(impl["doc"][keys[-1]]["Data"])) == tail[4]
+        except Exception:  # noqa: BLE001
+            ok = False
+        if ci in expect_text:
+            sec, want = expect_text[ci]
+            got = impl["doc"].get(sec, {})
+            bad = {k: (v, got.get(k)) for k, v in want.items() if got.get(k) != v}
+            if bad:
+                run.violation("display:hand-framed:" + sec.replace(" ", "_"), "text fields of the %s section are not shown as stored (NUL padding removed): %r" % (sec, bad),
+                              dict(rp, expected=want, actual={k: got.get(k) for k in want}))
+        if not ok and pid == "C01":
+            run.violation("framing:hand-framed", "the section after the %s section is not decoded intact" % tag, dict(rp, keys=keys))
+        mo = pelgen.model_outcome(model.call("decode", b"\1", data))
+        d = pelgen.first_diff(mo[2], impl["doc"]) if mo[0] == "ok" else "model says " + mo[0]
+        if d:
+            run.disagreements_checked += 1
+            k = d.split("/")[1] if d.startswith("/") and "/" in d[1:] else ""
+            owner = pelgen.property_of_key(k) if k else "C01"
+            if owner == pid or (pid == "C01" and not ok):
+                run.violation("model:hand-framed:" + tag.split(":")[0], "model and decoder disagree on a hand-framed PEL (%s) at %s" % (tag, d),
+                              dict(rp, kind="M", correspondence="Model.Pel.decode vs peltool.parsePEL", where=d), no_input=True)
 
 
 def replay_pel(run, model, path, pid):
